@@ -275,6 +275,8 @@ def _one(cfg, pre, opcode=False):
     from sched import thr_so
 
     res = thr_so.run_threads(cfg, pre, opcode=opcode)
+    if res["status"] == "hang":  # a watchdog fired: retry once (an overloaded machine can starve the baton hand-over)
+        res = thr_so.run_threads(cfg, pre, opcode=opcode)
     if res["status"] == "hang":
         raise RuntimeError(f"controller hang cfg={cfg} pre={pre}")
     trace, problems = thr_so.labels_of(res)
